@@ -109,6 +109,12 @@ type lockAnalysis struct {
 	callSite map[*ssa.Function][]lkState // states at in-type call sites of a helper
 	agg      map[string]*accAgg
 	payload  map[*types.Named]bool // struct types whose POINTER is stored as a list element's Value
+	// lock helpers of the type itself (both are lock-taking methods, found by what they do):
+	// wrapper: takes the lock, calls its func parameter, releases (withLock(f)); mode 1 read / 2 write
+	// acquirer: takes the lock and returns the matching unlock function (defer l.lock()())
+	wrapper   map[*ssa.Function]int
+	acquirer  map[*ssa.Function]int
+	underLock map[*ssa.Function]int // closures handed to a wrapper: entered with the lock held in that mode
 }
 
 type accAgg struct {
@@ -186,6 +192,98 @@ func runLock(c *Ctx, rule string) {
 			}
 		}
 	}
+	la.wrapper, la.acquirer, la.underLock = map[*ssa.Function]int{}, map[*ssa.Function]int{}, map[*ssa.Function]int{}
+	for _, m := range la.methods {
+		if !la.locksIn[m] || m.Parent() != nil {
+			continue
+		}
+		mode, nAcq, nRel := 0, 0, 0
+		for _, b := range m.Blocks {
+			for _, in := range b.Instrs {
+				switch op, _ := la.lockOp(m, in); op {
+				case "Lock":
+					mode, nAcq = 2, nAcq+1
+				case "RLock":
+					mode, nAcq = 1, nAcq+1
+				case "Unlock", "RUnlock":
+					nRel++
+				}
+			}
+		}
+		if nAcq != 1 {
+			continue
+		}
+		// wrapper: calls one of its own func-typed parameters
+		callsParam := false
+		for _, b := range m.Blocks {
+			for _, in := range b.Instrs {
+				if call, ok := in.(*ssa.Call); ok {
+					if prm, ok := call.Call.Value.(*ssa.Parameter); ok && prm.Parent() == m {
+						if _, isFn := prm.Type().Underlying().(*types.Signature); isFn {
+							callsParam = true
+						}
+					}
+				}
+			}
+		}
+		if callsParam && nRel >= 1 {
+			la.wrapper[m] = mode
+			continue
+		}
+		// acquirer: no release of its own; every return hands back the bound unlock method of its own mutex
+		if nRel == 0 && m.Signature.Results().Len() == 1 {
+			okRet, nRet := true, 0
+			want := map[int]string{2: "Unlock$bound", 1: "RUnlock$bound"}[mode]
+			for _, b := range m.Blocks {
+				ret, ok := b.Instrs[len(b.Instrs)-1].(*ssa.Return)
+				if !ok || b == m.Recover {
+					continue
+				}
+				nRet++
+				mc, ok := ret.Results[0].(*ssa.MakeClosure)
+				if !ok || len(mc.Bindings) != 1 {
+					okRet = false
+					continue
+				}
+				if fn, ok := mc.Fn.(*ssa.Function); !ok || fn.Name() != want {
+					okRet = false
+					continue
+				}
+				if i, _, ok := la.selfField(mc.Bindings[0]); !ok || i != la.muIdx {
+					okRet = false
+				}
+			}
+			if okRet && nRet > 0 {
+				la.acquirer[m] = mode
+			}
+		}
+	}
+	// closures handed to a wrapper run with the lock held
+	for _, m := range la.methods {
+		for _, b := range m.Blocks {
+			for _, in := range b.Instrs {
+				call, ok := in.(*ssa.Call)
+				if !ok {
+					continue
+				}
+				w := staticCallee(&call.Call)
+				mode, isW := la.wrapper[w]
+				if !isW {
+					continue
+				}
+				for _, a := range call.Call.Args {
+					if mc, ok := a.(*ssa.MakeClosure); ok {
+						if fn, ok := mc.Fn.(*ssa.Function); ok && fn.Parent() != nil {
+							if old, had := la.underLock[fn]; had && old != mode {
+								mode = 0
+							}
+							la.underLock[fn] = mode
+						}
+					}
+				}
+			}
+		}
+	}
 	// an operation that is composed of several lock-taking methods (Store = store() + evict(), each
 	// locking on its own) is not atomic: another goroutine can observe the state between them
 	for _, m := range la.methods {
@@ -211,7 +309,30 @@ func runLock(c *Ctx, rule string) {
 	// pass 1: lockers and lock-free public methods with entry unlocked
 	done := map[*ssa.Function]bool{}
 	var helpers []*ssa.Function
+	calledClosure := map[*ssa.Function]bool{}
 	for _, m := range la.methods {
+		for _, b := range m.Blocks {
+			for _, in := range b.Instrs {
+				if call, ok := in.(*ssa.Call); ok {
+					if mc, ok := call.Call.Value.(*ssa.MakeClosure); ok {
+						if fn, ok := mc.Fn.(*ssa.Function); ok && fn.Parent() != nil && len(*mc.Referrers()) == 1 {
+							calledClosure[fn] = true
+						}
+					}
+				}
+			}
+		}
+	}
+	for _, m := range la.methods {
+		if calledClosure[m] && !la.locksIn[m] {
+			helpers = append(helpers, m) // a function literal called on the spot: entered in its caller's lock state
+			continue
+		}
+		if mode, ok := la.underLock[m]; ok && mode != 0 && !la.locksIn[m] {
+			helpers = append(helpers, m)
+			la.callSite[m] = append(la.callSite[m], lkState{held: mode})
+			continue
+		}
 		if la.locksIn[m] || m.Object() == nil || m.Object().Exported() {
 			la.entry[m] = lkState{}
 		} else {
@@ -414,6 +535,23 @@ func (la *lockAnalysis) lockOp(fn *ssa.Function, in ssa.Instruction) (string, bo
 		return "", false
 	}
 	name := calleeName(cc)
+	if mc, ok := cc.Value.(*ssa.MakeClosure); ok && len(mc.Bindings) == 1 {
+		// a bound method value of the own mutex (unlock := l.rwMu.Unlock; defer unlock())
+		if bf, ok := mc.Fn.(*ssa.Function); ok {
+			if i, _, ok := la.selfField(mc.Bindings[0]); ok && i == la.muIdx {
+				switch bf.Name() {
+				case "Unlock$bound":
+					return "Unlock", deferred
+				case "RUnlock$bound":
+					return "RUnlock", deferred
+				case "Lock$bound":
+					return "Lock", deferred
+				case "RLock$bound":
+					return "RLock", deferred
+				}
+			}
+		}
+	}
 	var op string
 	switch name {
 	case "(*sync.RWMutex).Lock", "(*sync.Mutex).Lock":
@@ -598,18 +736,59 @@ func (la *lockAnalysis) analyse(fn *ssa.Function, helper bool) {
 					s.released = true
 				}
 				continue
+			case *ssa.Defer:
+				// defer l.lock()(): the deferred call is the unlock function an acquirer handed back
+				if cl, ok := x.Call.Value.(*ssa.Call); ok {
+					if mode, isAcq := la.acquirer[staticCallee(&cl.Call)]; isAcq {
+						if report {
+							c.Check(s.held == mode, la.rule, name, "defer-unlock-of-acquirer", ins.Pos(), "deferred release registered while "+s.String(), "deferred release registered while "+s.String()+" (does not match the lock the acquirer took)")
+						}
+						s.deferred = mode
+						continue
+					}
+				}
 			case *ssa.Return:
 				if report {
 					want := entry.held
 					if !helper {
 						want = 0
 					}
+					if mode, isAcq := la.acquirer[fn]; isAcq {
+						want = mode // hands the lock to its caller together with the unlock function
+					}
 					c.Check(s.held == want && !s.bad, la.rule, name, fmt.Sprintf("exit%d", b.Index), ins.Pos(),
 						"exit reached "+s.String(), "exit reached "+s.String()+" (lock not released on this path / helper changed the lock state)")
 				}
 				continue
 			case *ssa.Call:
+				if mc, ok := x.Call.Value.(*ssa.MakeClosure); ok {
+					if cf, ok := mc.Fn.(*ssa.Function); ok && cf.Parent() != nil && !report {
+						la.callSite[cf] = append(la.callSite[cf], s)
+					}
+				}
+				if prm, ok := x.Call.Value.(*ssa.Parameter); ok && la.wrapper[fn] != 0 && prm.Parent() == fn {
+					if report {
+						c.Check(s.held == la.wrapper[fn] && !s.bad, la.rule, name, "wrapper-call", ins.Pos(), "the function handed in runs while "+s.String(), "the function handed to the lock wrapper runs while "+s.String()+": its accesses are not covered by the lock")
+					}
+					continue
+				}
 				if callee := staticCallee(&x.Call); callee != nil && recvNamed(callee) == la.named {
+					if mode, isAcq := la.acquirer[callee]; isAcq {
+						if report {
+							switch {
+							case s.held != 0:
+								c.Bad(la.rule, name, "acquire", ins.Pos(), "lock helper "+callee.Name()+" called while already "+s.String()+": self-deadlock")
+							case s.released:
+								c.Bad(la.rule, name, "acquire", ins.Pos(), "second critical section in one operation: the operation is not atomic")
+							case helper:
+								c.Bad(la.rule, name, "acquire", ins.Pos(), "helper entered with the lock held acquires it again")
+							default:
+								c.OK(la.rule, name, "acquire", ins.Pos(), callee.Name()+" opens the operation's single critical section")
+							}
+						}
+						s.held = mode
+						continue
+					}
 					if la.locksIn[callee] {
 						if report && s.held != 0 {
 							c.Bad(la.rule, name, "reentry:"+callee.Name(), ins.Pos(), "calls lock-taking method "+callee.Name()+" while "+s.String()+": self-deadlock")
